@@ -670,8 +670,13 @@ r_expand(const Expansion &expansion, const vector_string &args,
     }
     if (!node._nested.empty()) {
       string nested_result;
-      if (node._optional && args.size() >= _num_parameters) {
-        nested_result = r_expand(node._nested, args, expand_undefined, ignores);
+      if (node._optional && _variadic_param >= 0) {
+        // __VA_OPT__ only expands if the variable argument has any tokens.
+        size_t va = (size_t)_variadic_param;
+        if (args.size() > va + 1 ||
+            (args.size() == va + 1 && !args[va].empty())) {
+          nested_result = r_expand(node._nested, args, expand_undefined, ignores);
+        }
       }
       if (node._stringify) {
         nested_result = stringify(nested_result);
